@@ -19,10 +19,10 @@ import (
 )
 
 type decision struct {
-	val  bool
-	both bool // the other side is feasible and not yet explored
-	need bool // must be asserted to the solver (not implied by the path condition)
-	cond *Term
+	val   bool
+	both  bool     // the other side is feasible and not yet explored
+	need  bool     // must be asserted to the solver (not implied by the path condition)
+	guess *big.Int // value tried by a concretisation at this decision
 }
 
 type goPanic struct {
@@ -150,6 +150,7 @@ type Exec struct {
 	guessCache   map[string]*Term
 	nAsserts     int
 	nWitness     int
+	floor        int
 	strictInit   map[*ssa.Package]bool
 	initSkips    []string
 	funcsSeen    map[string]bool
@@ -225,18 +226,24 @@ func (e *Exec) assertPC(c *Term) {
 
 // branch decides a symbolic condition, forking the exploration when both sides
 // are feasible.
-func (e *Exec) branch(c *Term) bool {
-	if c.IsConst() {
-		return c.IsTrue()
+func (e *Exec) branch(c *Term) bool { return e.decide(c, nil) }
+
+// decide is branch; with a non-nil guess (value concretisation) the decision is
+// always recorded, so that a replay finds the guess at the same position.
+func (e *Exec) decide(c *Term, guess *big.Int) bool {
+	if guess == nil {
+		if c.IsConst() {
+			return c.IsTrue()
+		}
+		if e.known[c.id] {
+			return true
+		}
 	}
 	if e.inInit {
 		panic(unsupported("symbolic branch during package init"))
 	}
-	if e.known[c.id] {
-		return true
-	}
 	nc := e.tb.BNot(c)
-	if e.known[nc.id] {
+	if guess == nil && e.known[nc.id] {
 		return false
 	}
 	if e.pos < len(e.decisions) {
@@ -246,6 +253,9 @@ func (e *Exec) branch(c *Term) bool {
 		if !d.val {
 			lit = nc
 		}
+		if lit.IsConst() {
+			return d.val
+		}
 		if d.need {
 			e.assertPC(lit)
 		} else {
@@ -254,29 +264,42 @@ func (e *Exec) branch(c *Term) bool {
 		return d.val
 	}
 	// new decision
-	vt := e.sol.Check(c)
-	if vt == Unknown {
-		e.end("inconclusive", "solver unknown on branch at "+e.curSite())
-	}
 	var d decision
-	if vt == Unsat {
+	switch {
+	case c.IsConst():
+		d = decision{val: c.IsTrue()}
+	case e.known[c.id]:
+		d = decision{val: true}
+	case e.known[nc.id]:
 		d = decision{val: false}
-	} else {
-		vf := e.sol.Check(nc)
-		if vf == Unknown {
+	default:
+		vt := e.sol.Check(c)
+		if vt == Unknown {
 			e.end("inconclusive", "solver unknown on branch at "+e.curSite())
 		}
-		if vf == Unsat {
-			d = decision{val: true}
+		if vt == Unsat {
+			d = decision{val: false}
 		} else {
-			d = decision{val: true, both: true, need: true}
+			vf := e.sol.Check(nc)
+			if vf == Unknown {
+				e.end("inconclusive", "solver unknown on branch at "+e.curSite())
+			}
+			if vf == Unsat {
+				d = decision{val: true}
+			} else {
+				d = decision{val: true, both: true, need: true}
+			}
 		}
 	}
+	d.guess = guess
 	e.decisions = append(e.decisions, d)
 	e.pos++
 	lit := c
 	if !d.val {
 		lit = nc
+	}
+	if lit.IsConst() {
+		return d.val
 	}
 	if d.need {
 		e.assertPC(lit)
@@ -324,17 +347,21 @@ func (e *Exec) concretize(t *Term, what string) uint64 {
 		if n > 300 {
 			panic(unsupported("concretize: too many values for " + what))
 		}
-		key := fmt.Sprintf("%d/%d/%d", e.pos, t.id, n)
-		guess := e.guessCache[key]
-		if guess == nil {
+		var guess *Term
+		if e.pos < len(e.decisions) {
+			g := e.decisions[e.pos].guess
+			if g == nil {
+				panic(unsupported("internal: replay diverged at a concretisation (" + what + ")"))
+			}
+			guess = e.tb.BV(g, t.w)
+		} else {
 			v, m := e.sol.CheckModel([]*Term{t})
 			if v != Sat || m[t] == nil {
 				e.end("inconclusive", "concretize "+what)
 			}
 			guess = e.tb.BV(m[t], t.w)
-			e.guessCache[key] = guess
 		}
-		if e.branch(e.tb.Eq(t, guess)) {
+		if e.decide(e.tb.Eq(t, guess), guess.val) {
 			return guess.val.Uint64()
 		}
 	}
@@ -564,16 +591,32 @@ func (e *Exec) reportViolationStack(kind, tag, site string, stack []string) {
 	}
 }
 
-// nextPrefix flips the deepest unexplored decision; false when exhausted.
+// nextPrefix flips the deepest unexplored decision at or above the floor of this
+// work item; false when the subtree is exhausted.
 func (e *Exec) nextPrefix() bool {
-	for i := len(e.decisions) - 1; i >= 0; i-- {
+	for i := len(e.decisions) - 1; i >= e.floor; i-- {
 		if e.decisions[i].both {
 			e.decisions = e.decisions[:i+1]
-			e.decisions[i] = decision{val: !e.decisions[i].val, need: true}
+			e.decisions[i] = decision{val: !e.decisions[i].val, need: true, guess: e.decisions[i].guess}
 			return true
 		}
 	}
 	return false
+}
+
+// donate hands the shallowest unexplored alternative (the largest subtree) to
+// another worker; nil when there is none.
+func (e *Exec) donate() []decision {
+	for i := e.floor; i < len(e.decisions); i++ {
+		if e.decisions[i].both {
+			p := make([]decision, i+1)
+			copy(p, e.decisions[:i+1])
+			p[i] = decision{val: !p[i].val, need: true, guess: p[i].guess}
+			e.decisions[i].both = false
+			return p
+		}
+	}
+	return nil
 }
 
 // ---------------------------------------------------------------- calls
